@@ -29,7 +29,7 @@ LEAN_TARGETS = ['DawgieVerif.Model.SubmitIO']
 MANIFEST = dict(
     text='Lean theorems over an executable model of FSM.set_submit_info / submit_crossroads / wait_for_* / the '
          'done callbacks, composed with the life-cycle model of C10 and with the priority lattice translated '
-         'from tools.submit.Priority.max: trigger_sound, trigger_once (+ accepted_means_reloading), '
+         'from tools.submit.Priority.max (priority_lattice: it is the maximum of NOW > CREW > DOING > TODO, for argument lists of any length): trigger_sound, trigger_once (+ accepted_means_reloading), '
          'refused_inactive for every history of submissions, resets, polls, environment changes and life-cycle '
          'events (induction over the event list with a state invariant); first_poll_fires; liveness as '
          'trigger_live_partial + later_submissions under the hypothesis Calm (life-cycle at rest in running '
@@ -457,7 +457,7 @@ def run(ctx, res):
             c = json.load(open(os.path.join(cdir, f)))
             obs, mevs = run_history(w, c['archive0'], tuple(c['env0']), c['events'], res)
             record(res, lines, pending, c['archive0'], tuple(c['env0']), c['events'], obs, mevs, 'corpus')
-    for _ in range(6000 if thorough else 1200):
+    for _ in range(15000 if thorough else 1200):
         archive0, env0, events = gen_random(r)
         env = tuple(c == '1' for c in env0)
         obs, mevs = run_history(w, archive0, env, events, res)
@@ -485,6 +485,16 @@ def run(ctx, res):
 
 
 def replay(rep, res):
+    """re-run the recorded input; report it again only if the recorded failure (same signature) is still there"""
+    tmp = common.Result()
+    _replay(rep, tmp)
+    want = rep.get('sig')
+    for h in tmp.hits:
+        if want is None or h['sig'] == want:
+            res.hit(h['sig'], h['what'], h['replay'])
+
+
+def _replay(rep, res):
     inp = rep['input']
     if inp.get('kind') == 'max':
         import dawgie.tools.submit as ts
